@@ -186,6 +186,17 @@ fn st_line(g: &Game, hist: &[Action], d: &Deal, rng: &mut Rng) -> String {
         cands.push(Action::Raise(hi2 + 1));
         cands.push(Action::Raise(lo - 1));
     }
+    // the end points of every range of amounts the engine says it accepts: each is applied, so an accepted
+    // over- or under-sized amount shows in the state it leads to
+    let ends = |r: &str| -> Vec<i16> { r.split('+').filter(|x| *x != "-").flat_map(|ab| ab.split(':').filter_map(|x| x.parse::<i16>().ok()).collect::<Vec<_>>()).collect() };
+    for x in ends(&calls) { cands.push(Action::Call(x)); }
+    for x in ends(&raises) { cands.push(Action::Raise(x)); }
+    for x in ends(&shoves) { cands.push(Action::Shove(x)); }
+    for x in ends(&blinds) { cands.push(Action::Blind(x)); }
+    {
+        let mut seen_c: Vec<String> = vec![];
+        cands.retain(|a| { let t = act_tok(a); if seen_c.contains(&t) { false } else { seen_c.push(t); true } });
+    }
     for a in cands {
         let r = catch(|| g.apply(a));
         succ.push(format!("{}>{}", act_tok(&a), r.map(|x| state_str(&x)).unwrap_or("X".into())));
@@ -281,7 +292,11 @@ pub fn walk(out: &mut Shards, all_raises: bool, minmax: bool, menus: bool, rng: 
                                 xs.sort();
                                 xs.dedup();
                                 for x in xs {
-                                    next.push(Action::Raise(x));
+                                    // an edge that translates to a raise the engine refuses is reported by the menu lines;
+                                    // the walk itself only follows accepted actions
+                                    if catch(|| g.is_allowed(&Action::Raise(x))).unwrap_or(false) {
+                                        next.push(Action::Raise(x));
+                                    }
                                 }
                             }
                         }
@@ -292,7 +307,10 @@ pub fn walk(out: &mut Shards, all_raises: bool, minmax: bool, menus: bool, rng: 
         }
         for a in next {
             stats.transitions += 1;
-            let child = g.apply(a);
+            let child = match catch(|| g.apply(a)) {
+                Some(c) => c,
+                None => continue, // the st line of g already records that apply aborts on this action
+            };
             if seen.insert(key(&child)) {
                 let mut h = hist.clone();
                 h.push(a);
